@@ -241,6 +241,12 @@ func startStalls(run *hx.Run, rng *hx.Rng) *stallSet {
 		a.Write(half)
 	})
 
+	// ---------------- discovery: the node's real ping-back goes unanswered / is answered with a wrong ReplyTok ----------------
+	for _, bad := range []bool{false, true} {
+		f, rel := realBondScenario(rng, bad)
+		set.add(fmt.Sprintf("discover: ping, real ping-back unanswered (wrong-ReplyTok pong=%v), respTimeout, findnode must be refused", bad), 4*time.Second, f, rel)
+	}
+
 	for _, sc := range set.sc {
 		sc := sc
 		sc.start = time.Now()
@@ -293,6 +299,9 @@ func (s *stallSet) join(run *hx.Run) {
 		case len(out) >= 14 && out[:14] == "control-failed":
 			run.Violate("roundtrip", sig, in, "an honest peer was not served: "+out)
 			run.Count("stall:control-failed")
+		case len(out) >= 7 && out[:7] == "served:":
+			run.Violate("unbonded-findnode-served", sig, in, out)
+			run.Count("stall:findnode-served")
 		case len(out) < 4 || out[:4] != "err:":
 			run.Violate("stall-accepted", sig, in, "the handler did not end with an error for a peer that stalled: "+out)
 			run.Count("stall:no-error")
